@@ -55,7 +55,7 @@ def step (maxq : Nat) (u : List Nat) : Ev → Except Fault (List Nat)
   | .alloc v => if maxq ≤ v then .error .range else if v ∈ u then .error .double else .ok (v :: u)
   | .free v => match need maxq u v with
       | some f => .error f
-      | none => .ok (u.erase v)
+      | none => .ok (u.filter (· != v))
   | .use v => match need maxq u v with
       | some f => .error f
       | none => .ok u
